@@ -161,6 +161,9 @@ type Case struct {
 	Mode   string  // uncaptured | captured
 	Coord  string  // coordinates for pipeline keys
 	InFunc bool    // the call chain sits inside a function body
+	// Warm: another captured command call (@"./say"("warm", "up")) runs BEFORE the chain, so the chain is not the
+	// first command call the transpiler emits (whatever it keeps from one call site to the next must not matter)
+	Warm bool
 }
 
 func (c Case) cells() []string {
@@ -188,7 +191,11 @@ func (c Case) String() string {
 		}
 		st = append(st, "["+strings.Join(as, ",")+"]")
 	}
-	return fmt.Sprintf("%s mode=%s stages=%s", c.Kind, c.Mode, strings.Join(st, "|"))
+	w := ""
+	if c.Warm {
+		w = " after-another-call"
+	}
+	return fmt.Sprintf("%s mode=%s stages=%s%s", c.Kind, c.Mode, strings.Join(st, "|"), w)
 }
 
 func (c Case) source() string {
@@ -205,6 +212,9 @@ func (c Case) source() string {
 	var sb strings.Builder
 	if needID {
 		sb.WriteString("func id(s string) string {\n\treturn s\n}\n\n")
+	}
+	if c.Warm {
+		sb.WriteString("wo, we, wc := @\"./say\"(\"warm\", \"up\")\nprint(wo, we, wc)\n")
 	}
 	if c.InFunc {
 		sb.WriteString("func work() {\n")
@@ -248,6 +258,9 @@ func (c Case) expect() (stdout string, logs map[string]string, skip string) {
 		if !strings.HasSuffix(data, "\n") {
 			// the next print starts on the same line; that is what exact pass-through means
 		}
+	}
+	if c.Warm {
+		stdout = "warm  0\n" + stdout
 	}
 	return stdout + "done\n", logs, ""
 }
@@ -584,6 +597,29 @@ func argCases(thorough bool) []Case {
 				}
 			}
 		}
+		// (B') the same kind of lists as the SECOND command call of the program (Warm): length 2 with every origin
+		// vector, length 3 over the origins that evaluate something (call, capture) and literals
+		addWarm := func(names, orgs []string) {
+			var st []Arg
+			for i, n := range names {
+				st = append(st, Arg{Name: n, Value: argValue[n], Origin: orgs[i]})
+			}
+			c := Case{Kind: "args", Stages: [][]Arg{st}, Mode: m, Warm: true}
+			if !seen[c.String()] {
+				seen[c.String()] = true
+				out = append(out, c)
+			}
+		}
+		for _, l := range listsOver([]string{"a", "b_c", "star"}, 2, 2) {
+			for _, ov := range originVectors(2, origins) {
+				addWarm(l, ov)
+			}
+		}
+		for _, l := range listsOver([]string{"a", "b__c"}, 3, 3) {
+			for _, ov := range originVectors(3, []string{"literal", "call", "capture"}) {
+				addWarm(l, ov)
+			}
+		}
 		// (C) long lists over 4 of the strings
 		four := []string{"a", "empty", "b_c", "star"}
 		for _, l := range listsOver(four, 4, 5) {
@@ -831,7 +867,11 @@ func Run() int {
 		mu.Lock()
 		unexplained++
 		mu.Unlock()
-		r.Fail(fmt.Sprintf("args=[%s] mode=%s symptom=%s", strings.Join(c.cells(), ","), c.Mode, o.Symptom),
+		wk := ""
+		if c.Warm {
+			wk = " after-another-call"
+		}
+		r.Fail(fmt.Sprintf("args=[%s] mode=%s%s symptom=%s", strings.Join(c.cells(), ","), c.Mode, wk, o.Symptom),
 			fmt.Sprintf("%s: %s (not the composition of the single-argument findings; predicted words %q)", c, o.Detail, predicted), replay(c, o))
 	})
 
@@ -901,7 +941,7 @@ func Run() int {
 		r.Set("exhaustive", false)
 		r.Set("cap_hit", "sweep stopped at the internal deadline")
 	}
-	r.Set("rule", "a case = one TypeShell program with one call chain of probe stages, transpiled by the real transpiler and run by the real bash in an empty environment; (A) every literal argument list up to the tier's length over the 12 representative strings, (B) every origin vector over {literal,var,concat,call} for lists of length 1-2 (length 3 over {literal,var} in thorough), (C) every list of length 4-5 over {a, empty, 'b c', *} all-literal and all-variable, each uncaptured and captured; (D) chains of 1..3 stages x argument pattern x trailing newline present/absent x status of earlier stages {0,3} x status of the last stage (tier's set) x captured/uncaptured; distinct by coordinates; every case compares the hex argv record of every stage, stdout, the captured status, stderr and the script's exit status with the model of the probe")
+	r.Set("rule", "a case = one TypeShell program with one call chain of probe stages, transpiled by the real transpiler and run by the real bash in an empty environment; (A) every literal argument list up to the tier's length over the 12 representative strings, (B) every origin vector over {literal,var,concat,call} for lists of length 1-2 (length 3 over {literal,var} in thorough), (B') lists of length 2 (every origin vector) and 3 (origins literal/call/capture) as the SECOND command call of the program, after a captured call; (C) every list of length 4-5 over {a, empty, 'b c', *} all-literal and all-variable, each uncaptured and captured; (D) chains of 1..3 stages x argument pattern x trailing newline present/absent x status of earlier stages {0,3} x status of the last stage (tier's set) x captured/uncaptured; distinct by coordinates; every case compares the hex argv record of every stage, stdout, the captured status, stderr and the script's exit status with the model of the probe")
 	r.Assumef("Bash target only; the Batch `_ach` path needs a real cmd.exe and is covered structurally by C16")
 	r.Assumef("the sandbox directory contains the probes p1 p2 p3, a directory log and a one-letter file x, so that unquoted glob characters have something to match")
 	r.Assumef("a list that contains failing single-argument cells is attributed to them when the probe received exactly the concatenation of what each cell receives alone (word-level cells) or when one of its cells cuts or continues the command line itself (semicolon, trailing backslash: no composition rule); every other failing list is reported with its full coordinates")
